@@ -79,6 +79,33 @@ def run_batch(b):
             if sum(got) > 1:
                 acc.violation("obj-predicate-two-families", "code %d in two families" % n,
                               {"n": n, "interface": "obj", "got": got})
+    # the same answer object classified again after its Result-Code has been changed (data rewritten in place, or the AVP
+    # replaced): the verdict must follow the code the object carries now, not the one it carried when first asked
+    import random as _r
+    rr = _r.Random(len(codes) * 7919 + (codes[0] if codes else 0))
+    pool = [c for c in codes if c % 1000] or [2001]
+    for _ in range(min(400, len(pool))):
+        first, second = rr.choice(pool), rr.choice(pool)
+        ans = DiameterAnswer(command_code=272, application_id=4)
+        ans.append(ResultCodeAVP(first))
+        before = [bool(p(ans)) for p in objs]
+        how = rr.choice(["data", "replace", "copy"])
+        if how == "data":
+            ans.result_code_avp.data = second.to_bytes(4, "big")
+        elif how == "replace":
+            ans.pop("result_code_avp")
+            ans.append(ResultCodeAVP(second))
+        else:
+            ans = ans.copy()
+            ans.result_code_avp.data = second.to_bytes(4, "big")
+        got = [bool(p(ans)) for p in objs]
+        want = [second // 1000 == f for f in range(1, 6)]
+        acc.evaluations += 1
+        acc.counters["reclassified_after_change"] += 1
+        if got != want:
+            acc.violation("obj-predicate-stale-after-result-code-change",
+                          "answer first carried %d, then %d (%s): predicates gave %s, family rule says %s" % (first, second, how, got, want),
+                          {"n": second, "first": first, "how": how, "interface": "obj-reused"})
     acc.extra["distinct_judged"] = distinct
     if codes:
         acc.sample({"n": codes[len(codes) // 2], "int": [bool(p(codes[len(codes) // 2])) for p in ints]})
@@ -111,7 +138,7 @@ def main(tier, seed):
                          "answer-object predicates are read through has_avp('result_code_avp') on answers of eight shapes (E/T flag set, other AVPs before/after, other commands and applications, decoded from bytes)"],
                         t0, extra_cov={"distinct_nontrivial": distinct,
                                        "range_exhaustive": "0..65535 through both interfaces"},
-                        exhaustive=True, require_counters=("int_predicate_calls", "obj_predicate_calls"))
+                        exhaustive=True, require_counters=("int_predicate_calls", "obj_predicate_calls", "reclassified_after_change"))
     return rc
 
 
